@@ -1,10 +1,13 @@
-(* C03 — a syntactic class of (host, region) pairs for which the collector of the code as it is computes
-   args/returns that satisfy the outlining hypotheses (proved in SufficientProofs.v):
+(* C03 — a syntactic class of (host, region) pairs for which the collector of the current code (the four
+   committed fixes included, see Current.v) computes args/returns that satisfy the outlining hypotheses
+   (proved in SufficientProofs.v):
 
      the region is a run of simple statements (assignment, augmented assignment, print, pass, and possibly a
      final return) at the top level of the function body;
      what precedes it is arbitrary but every name it may assign it definitely assigns (or is a parameter);
-     what follows it is arbitrary but assigns none of the names the region assigns;
+     what follows it is arbitrary (since f6cf806 a later write only kills when it is at the top level of the
+     function body, where it is certainly executed; before that fix the class had to demand that the rest of
+     the function assigns none of the region's names);
      line numbers are what a parser produces (everything before the region on earlier lines, after it on later
      lines, the def line is line 1). *)
 From Coq Require Import List NArith ZArith Bool.
@@ -41,6 +44,9 @@ Fixpoint reads_s (s : stmt) : list var :=
   end.
 Definition reads (ss : list stmt) : list var := flat_map reads_s ss.
 
+Definition compound (s : stmt) : bool :=
+  match s with SIf _ _ _ _ | SWhile _ _ _ | SFor _ _ _ _ => true | _ => false end.
+
 Definition side_C03 (params : list var) (pre R post : list stmt) : bool :=
   straight R && accepted R && nocall pre && nocall post
   && N.ltb 1 (first_line R)
@@ -48,5 +54,4 @@ Definition side_C03 (params : list var) (pre R post : list stmt) : bool :=
   && forallb (fun s => N.leb (first_line R) (line_of s) && N.leb (line_of s) (last_line R)) R
   && forallb (fun l => N.ltb (last_line R) l) (blines post)
   && subset (defs pre) (params ++ mustd pre)
-  && forallb (fun x => negb (mem x (defs post))) (defs R)
   && conv_b (pre ++ R ++ post) k0.
